@@ -673,6 +673,15 @@ class Spec:
             o = ev(args[0])
             g = st.ghost.setdefault('$inv', z3.Const('g0_inv', z3.ArraySort(Addr, BoolS)))
             return V('bool', z3.Select(g, ex.term(o)))
+        if fn in ('u64', 'i64'):
+            x = ev(args[0])
+            if self.is_lit(x):
+                return V('uint64' if fn == 'u64' else 'int64', z3.BitVecVal(x.x, 64))
+            w = x.x.size()
+            if w == 64:
+                return V('uint64' if fn == 'u64' else 'int64', x.x)
+            ext = z3.SignExt(64 - w, x.x) if self.signed(ex, x) else z3.ZeroExt(64 - w, x.x)
+            return V('uint64' if fn == 'u64' else 'int64', ext)
         if fn == 'typed':
             # typed(T, literal)
             t = self.resolve_type(ex, self.typearg(args[0]))
@@ -886,6 +895,9 @@ class Spec:
             g = self.eval_bool(ex, cl.expr, e2, st, before)
             ex.oblige(st, '%s/%s/step.%s.%s@L%s' % (ex.tagstr(cl), ex.short_fn(), callee, cl.label or 's%d' % cl.ordinal, line), g,
                       tags=cl.tags, where='%s:%d' % (cl.file, cl.line), kind='step')
+
+    def access_discipline(self, ex, st, kind, p, ins):
+        pass
 
     def havoc_all(self, ex, con, env, st, old):
         for c in con.of('modifies'):
@@ -1543,7 +1555,7 @@ class Spec:
                                                            z3.Select(ex.mem_array(st, cell[2]), a) == z3.Select(oa, a))))
                     continue
                 for (p, v) in cell[1]:
-                    if p.cid is not None:
+                    if p.cid is not None and p.cid < 0:
                         continue
                     if any(self.prefix_of(q, p) for q in allowed_mem):
                         continue
